@@ -1,15 +1,22 @@
-import Witverif.Proofs.AbiTotal
+import Witverif.Proofs.AbiTotal4
 /-!
 # C16 (core half) — totality of `write_to_memory`, `read_from_memory` and flat `lower` in the shared generator
 
 Model: `Abi.lower/store/load/lift/dealloc/call/postReturn` with `Except Panic` at every
 `todo!/unreachable!/unwrap/assert!` of crates/core/src/abi.rs.  Tie: for every entry point and every
 generated type/function the real generator panics exactly when the model does (abi-trace runs each case
-under `catch_unwind`).  PROVED total here: `store`, `load`, and `lower` (≤ 16 flat slots).  NOT proved
-(partial obligations in the evidence; every C02/C03 glue theorem carries `call … = .ok ss` resp.
-`postReturn f = .ok ss` as a hypothesis): totality of `lift`, `dealloc`/`deallocIndirect`, `call`
-(including its final "stack is empty" assertion, i.e. the C02 clause "leaves no value unconsumed") and
-`post_return`; for those, absence of panics on supported inputs is a correspondence + search result.
+under `catch_unwind`).  PROVED total here: `store`, `load`, `deallocate_indirect` (any type); flat
+`lower`, `lift`, `deallocate` (≤ 16 flat slots — the only way the calling convention uses them); and
+`Generator::call` for the four (variant, direction, async) combinations the backends use
+(import-lower-sync, export-lift-sync, GuestExportAsync-lift-async, C#'s GuestExport-lift-async) for EVERY
+function, including the closing "operands = core signature" / "stack holds exactly the results"
+assertions, plus `post_return` wherever `guest_export_needs_post_return` makes a backend emit it.
+Validity hypothesis of the flat lift/dealloc/call theorems: fixed-length lists are non-empty
+(`flistsNonEmpty`; the component-model rule wasmparser enforces — wit-parser itself accepts `list<T, 0>`,
+and `lift_panics_on_empty_flist` shows the hypothesis is needed: the real generator panics there too,
+abi-trace `list<tuple<17×u32>, 0>`; recorded in DESIGN as outside "valid world").
+NOT proved: the host-side directions of `call` (export-lower, import-lift: used only by the C02 host
+model, no backend) and `GuestImportAsync`/stackful variants (`todo!()` in the source, used by no backend).
 Backend half (each backend's own `match` arms): `Props/C16Backends.lean`.
 -/
 namespace Witverif.Props.C16
@@ -34,5 +41,54 @@ theorem lower_never_panics (c : Cfg) (t : Ty) (lvl : Nat) (x : Expr) (h : (flatt
 /-- The bound is sharp: beyond 16 flat slots a variant hits `flat_types(..).unwrap()`. -/
 theorem lower_panics_beyond_limit :
     lower ⟨fun _ => false, true⟩ 0 (.option (.tuple (List.replicate 16 .u32))) (.inp 0) = .error .unwrap := rfl
+
+/-- Flat lifting never panics on a valid type with at most 16 flat slots, whatever operands it is given. -/
+theorem lift_never_panics (c : Cfg) (t : Ty) (lvl : Nat) (xs : List Expr) (h : (flatten t).length ≤ 16)
+    (hv : flistsNonEmpty t = true) : ∃ r, lift c lvl t xs = .ok r := lift_total c t lvl xs h hv
+
+/-- … and the validity hypothesis cannot be dropped. -/
+theorem lift_panics_on_empty_fixed_list :
+    lift ⟨fun _ => false, true⟩ 0 (.flist (.tuple (List.replicate 17 .u32)) 0) [] = .error .unwrap := rfl
+
+/-- Cleanup through memory (`deallocate_indirect`: post-return, list elements, parameter records) never
+panics — any type, both cleanup modes. -/
+theorem dealloc_indirect_never_panics (handles : Bool) (t : Ty) (lvl : Nat) (a : Expr) (off : Off) :
+    ∃ ss, deallocIndirect handles lvl t a off = .ok ss := deallocIndirect_total handles t lvl a off
+
+/-- Cleanup of flat operands (`deallocate`) never panics on a valid type with at most 16 flat slots. -/
+theorem dealloc_never_panics (handles : Bool) (t : Ty) (lvl : Nat) (xs : List Expr) (h : (flatten t).length ≤ 16)
+    (hv : flistsNonEmpty t = true) : ∃ ss, dealloc handles lvl t xs = .ok ss := dealloc_total handles t lvl xs h hv
+
+/-- `Generator::call` never panics for any function with valid types, in every combination a backend uses:
+sync import (lower arguments, lift results), sync export (lift arguments, lower results), async export
+through `GuestExportAsync` (Rust, C, MoonBit, Go) and through `GuestExport` with `async_ = true` (C#).
+No bound on the number or size of parameters: > 16 flat slots go through the parameter record, > 1 result
+slot through the return area, > 16 `task.return` slots through memory.  Success includes every closing
+assertion of `call` (C02: "leaves no value unconsumed"). -/
+theorem call_never_panics (canon : Ty → Bool) (f : Func) (hv : f.valid = true) :
+    (∃ ss, call canon .guestImport true false f = .ok ss) ∧
+    (∃ ss, call canon .guestExport false false f = .ok ss) ∧
+    (∃ ss, call canon .guestExportAsync false true f = .ok ss) ∧
+    (∃ ss, call canon .guestExport false true f = .ok ss) :=
+  ⟨call_import_total canon f hv, call_export_total canon f hv,
+   call_export_async_total canon _ (.inl rfl) f hv, call_export_async_total canon _ (.inr rfl) f hv⟩
+
+/-- `post_return` never panics where a backend emits it (`guest_export_needs_post_return`), and is an
+assertion failure exactly when the export does not return through a return area. -/
+theorem post_return_never_panics_where_emitted (f : Func) (hv : f.valid = true) (h : needsPostReturn f = true) :
+    ∃ ss, postReturn f = .ok ss := postReturn_total_of_needed f hv h
+
+theorem post_return_panics_iff (f : Func) :
+    (∃ ss, postReturn f = .ok ss) ↔ (flattenOpt f.result).length > 1 := by
+  constructor
+  · intro ⟨ss, h⟩
+    refine Classical.byContradiction fun hn => ?_
+    rw [postReturn_asserts f hn] at h
+    cases h
+  · exact postReturn_total f
+
+/-- non-vacuity: a function with 17 parameters (indirect), a list result (return area) and valid types -/
+example : (⟨false, List.replicate 17 .u64 ++ [.flist .string 2], some (.list .string)⟩ : Func).valid = true := by
+  decide
 
 end Witverif.Props.C16
